@@ -16,7 +16,7 @@ import (
 
 // famCbGas drives computeExecAndCommitGasLimit over (gas_limit field, remaining, max) incl. boundaries.
 func famCbGas(r *hx.Rng, o *hx.Out) {
-	n := hx.N(500, 20000)
+	n := hx.N(500, 6000)
 	for i := 0; i < n; i++ {
 		maxg := r.U64B(1000000)
 		if maxg == 0 {
@@ -125,7 +125,7 @@ func famCbProcess(r *hx.Rng, o *hx.Out) {
 		}
 		return sdk.BigEndianToUint64(bz)
 	}
-	n := hx.N(900, 30000)
+	n := hx.N(900, 8000)
 	kinds := []string{"nil", "err", "panic"}
 	for i := 0; i < n; i++ {
 		cbt := cbTypes[r.Intn(len(cbTypes))]
